@@ -5,7 +5,8 @@ from contracts.core_parsers import M
 SIDECARS = ["core_parsers"]
 UNITS = [(M, "CommandParser.validate_lines"), (M, "CommandParser.__init__"), (M, "JSONParser.parse_content"), (M, "YAMLParser.parse_content"),
          (M, "TextFileOutput.get"), (M, "TextFileOutput.__contains__"),
-         (M, "TextFileOutput._valid_search.<locals>.<lambda>#0"), (M, "TextFileOutput._valid_search.<locals>.<lambda>#1")]
+         (M, "TextFileOutput._valid_search.<locals>.<lambda>#0"), (M, "TextFileOutput._valid_search.<locals>.<lambda>#1"),
+         (M, "LogFileOutput.get_after")]
 
 
 def static_checks(repo):
@@ -21,6 +22,10 @@ def static_checks(repo):
 
 
 NOT_CARRIED = ["json.loads / yaml.load are uninterpreted functions of the text (or raise)",
-               "TextFileOutput.get / _valid_search / __contains__ (line search) and LogFileOutput.get_after (time-based search: regular "
-               "expression from the format, 330-day year inference) are not under contract in this revision",
+               "TextFileOutput._valid_search: the dispatch on the kind of `s` (string / list / None / TypeError) is an assumed interface; its two "
+               "closures are verified as units; `check` is an uninterpreted reducer (all / any)",
+               "LogFileOutput.get_after: only the inclusion state machine (from `eleven_months = ...` to the end) is executed; the construction of the "
+               "regular expression from the time format and of the strptime parser (lines before it) is not under contract: time_re, parse_fn and "
+               "logs_have_year are arbitrary values there; re.search / strptime / datetime arithmetic are uninterpreted total functions",
+               "the 330-day year inference is specified as written (the property only says 'with or without year, across a year boundary')",
                "'valid JSON preceded by noise lines beginning with [' (the start-line heuristic is verified as written)"]
